@@ -72,6 +72,7 @@ AuxInit == [dur |-> <<>>,       \* map id -> BOOLEAN: the disk image is known to
             fault |-> FALSE,    \* a write fault (RLIMIT_FSIZE) is being injected
             design |-> TRUE,    \* advance the design layer on every update (off for long contract-only traces)
             nf |-> 0,           \* verdicts in this history so far
+            sdg |-> <<>>,       \* <<map id, file (1 htx, 2 key, 3 val)>> -> digest of the file when it last got an OS sync
             inst |-> <<>>,      \* map id -> identity of the buffered instance its handles share (AbyReg!OneInstance)
             hist |-> 0]         \* history number (counts "reset" events)
 
@@ -152,7 +153,8 @@ StateFails(j, S, D, m) ==
        \* behind it; the structural conjuncts then fail as well, this one names the cause)
        \cup (IF \E i \in 1..Len(j.ks) : j.ks[i].off \in D.reach /\ j.ks[i].need > j.ks[i].size THEN {"C09.fits"} ELSE {})
        \cup (IF \E i \in 1..Len(j.vs) : j.vs[i].off \in D.rvals /\ j.vs[i].need > j.vs[i].size THEN {"C09.fits"} ELSE {})
-       \cup (IF j.hdr_zero = <<TRUE, TRUE, TRUE>> THEN {} ELSE {"C12.header"})
+       \* (reserved header bytes that are not zero: a later version may use them and an older reader ignores
+       \*  them - C12 demands the documented layout, not zeros: reported as design drift by the decode event)
        \cup (IF ~Known(m) \/ ~(chok /\ vrok) \/ AbsMapD(S, D) = mem[m] THEN {} ELSE {"C05.content"})   \* an independent reader recovers the contents
 
 WellFormed(S, D) == ChainsOKD(S, D) /\ ValRefsOKD(S, D) /\ FreeOKD(S, D)
@@ -314,6 +316,11 @@ FlushOrderOK(w) == /\ \A i \in 1..(Len(w) - 1) :
 \* has it, else the io-trace hook (field "io")
 SyncLog(e) == IF Has(e, "sys") THEN e.sys ELSE e.io
 SyncIoOK(e, op) == \A f \in {"val", "key", "htx"} : \E i \in 1..Len(SyncLog(e)) : SyncLog(e)[i] = <<f, op>>
+\* per file: an OS sync is needed only if the bytes of the file (as the page cache has them after the call) differ
+\* from what they were when the file was last synced ("a file that was not written needs no fsync")
+FileName(f) == CASE f = 1 -> "htx" [] f = 2 -> "key" [] OTHER -> "val"
+SyncedNow(e, op, f) == \E i \in 1..Len(SyncLog(e)) : SyncLog(e)[i] = <<FileName(f), op>>
+NeedsSync(a, mm, f, dg) == Get0(a.sdg, <<mm, f>>, "never") # dg[f]
 MapsOfDir(d) == {m \in DOMAIN meta : meta[m].dir = d /\ meta[m].open}
 
 \* The result of processing event e: new values of the variables plus the failed conjuncts
@@ -451,9 +458,17 @@ Proc(e) ==
       [] e.ev \in {"flush", "sync_all", "sync_data"} ->
             IF ~(m \in DOMAIN mem) THEN base ELSE
             LET ok == e.outcome = "ok"
-                syn == e.ev # "flush" /\ ok /\ SyncIoOK(e, e.ev)
+                hasdg == Has(e, "fdg")
+                \* every file got its OS sync, or did not need one
+                syn == e.ev # "flush" /\ ok /\ (IF hasdg THEN \A f \in 1..3 : SyncedNow(e, e.ev, f) \/ ~NeedsSync(aux, m, f, e.fdg)
+                                                         ELSE SyncIoOK(e, e.ev))
                 covered == Get0(aux.synced, m, FALSE)
+                sdg2 == IF e.ev # "flush" /\ ok /\ hasdg
+                        THEN [x \in DOMAIN aux.sdg \cup {<<m, f>> : f \in {g \in 1..3 : SyncedNow(e, e.ev, g)}} |->
+                                 IF x[1] = m /\ SyncedNow(e, e.ev, x[2]) THEN e.fdg[x[2]] ELSE aux.sdg[x]]
+                        ELSE aux.sdg
             IN [base EXCEPT !.aux = [aux EXCEPT !.dur = Set(aux.dur, m, ok /\ known),
+                                                !.sdg = sdg2,
                                                 !.synced = Set(aux.synced, m, syn \/ (covered /\ ok))],
                             !.drift = IF Has(e, "wr") /\ ~FlushOrderOK(e.wr) THEN "flush write order differs from AbyBuf (val, key, htx; ascending chunk-aligned offsets)"
                                       \* AbyBuf!mdirty is the crate's is_dirty(): cleared by a successful flush/sync, kept by a failed one
@@ -466,10 +481,20 @@ Proc(e) ==
                 ms == MapsOfDir(e.dir)
                 op == IF e.ev = "db_sync_all" THEN "sync_all" ELSE "sync_data"
                 cnt(f) == Cardinality({i \in 1..Len(SyncLog(e)) : SyncLog(e)[i] = <<f, op>>})
-                need == Cardinality({x \in ms : ~Get0(aux.synced, x, FALSE)})
-                syn == \A f \in {"val", "key", "htx"} : cnt(f) >= need
+                hasdg == Has(e, "fdgs")
+                dgof(x) == IF hasdg /\ x \in DOMAIN e.fdgs THEN e.fdgs[x] ELSE <<"?1", "?2", "?3">>
+                \* the maps of the directory whose file f changed since its last OS sync
+                needing(f) == {x \in ms : IF hasdg THEN NeedsSync(aux, x, f, dgof(x)) ELSE ~Get0(aux.synced, x, FALSE)}
+                syn == \A f \in 1..3 : cnt(FileName(f)) >= Cardinality(needing(f))
                 all == \A f \in {"val", "key", "htx"} : cnt(f) >= Cardinality(ms)
+                \* (the log does not say WHICH map's file was synced: with enough syncs the needing ones are taken as served)
+                sdg2 == IF ok /\ hasdg /\ syn
+                        THEN [x \in DOMAIN aux.sdg \cup {<<y, f>> : y \in ms, f \in 1..3} |->
+                                 IF x[1] \in ms /\ (x[1] \in needing(x[2]) \/ cnt(FileName(x[2])) >= Cardinality(ms)) THEN dgof(x[1])[x[2]]
+                                 ELSE Get0(aux.sdg, x, "never")]
+                        ELSE aux.sdg
             IN [base EXCEPT !.aux = [aux EXCEPT !.dur = [x \in DOMAIN aux.dur |-> IF x \in ms THEN ok /\ Known(x) ELSE aux.dur[x]],
+                                                !.sdg = sdg2,
                                                 !.synced = [x \in DOMAIN aux.synced |-> IF x \in ms /\ ok /\ all THEN TRUE ELSE aux.synced[x]]],
                             !.fails = (IF ok \/ aux.fault THEN {} ELSE {"C03.outcome"})
                                       \cup (IF ~ok \/ syn THEN {} ELSE {"C03.sync_calls"})]
@@ -534,6 +559,7 @@ Proc(e) ==
             IN [base EXCEPT !.fails = sf \cup stepf \cup bf \cup nf \cup ff,
                             !.drift = IF ~IsNone(pred) /\ pred # S THEN ToJson(DiffS(pred, S))
                                       ELSE IF m \in DOMAIN meta /\ meta[m].n # S.n THEN "stored bucket count differs from BucketsFromParam(creation parameter)"
+                                      ELSE IF e.st.hdr_zero # <<TRUE, TRUE, TRUE>> THEN "reserved header bytes are not zero"
                                       ELSE IF wf /\ FreeOKD(S, D) /\ ~PadOKD(S, D) THEN "bytes behind a record are not zero"
                                       ELSE IF ~(ClassSizesOK(S.kf) /\ ClassSizesOK(S.vf)) THEN "a slot size is not one of the design's class values"
                                       ELSE "",
